@@ -4,7 +4,7 @@ sys.path.insert(0, os.path.dirname(os.path.abspath(__file__)))
 
 def main():
     pid = sys.argv[1]; tier = sys.argv[2] if len(sys.argv) > 2 else "quick"
-    import check_simple, check_mdd, check_solve, check_par
+    import check_simple, check_mdd, check_solve, check_par, check_examples
     table = {
         "C17": lambda: check_simple.check_c17(tier),
         "C18": lambda: check_simple.check_c18(tier),
@@ -21,6 +21,7 @@ def main():
     table["C03"] = lambda: check_par.check_par(tier, "C03")
     table["C04"] = lambda: check_par.check_par(tier, "C04")
     table["C14"] = lambda: check_solve.check_c14(tier)
+    table["C16"] = lambda: check_examples.check_c16(tier)
     table["C15"] = lambda: check_solve.check_c15(tier)
     if pid not in table:
         print("unknown property " + pid); sys.exit(2)
